@@ -63,6 +63,12 @@ func validateJSONPatches(patches []byte) error {
 			return fmt.Errorf("%s: invalid path", patch.JSONPatch)
 		}
 
+		// a JSON pointer starts with '/': the patch engine ignores whatever precedes the first '/', so "x/publicKey"
+		// would address the public keys all the same
+		if !strings.HasPrefix(path, "/") {
+			return fmt.Errorf("%s: path must start with '/'", patch.JSONPatch)
+		}
+
 		if strings.HasPrefix(path, "/"+document.ServiceProperty) {
 			return fmt.Errorf("%s: cannot modify services", patch.JSONPatch)
 		}
@@ -75,6 +81,10 @@ func validateJSONPatches(patches []byte) error {
 			var from string
 			if err := json.Unmarshal(*fromMsg, &from); err != nil {
 				return fmt.Errorf("%s: invalid from", patch.JSONPatch)
+			}
+
+			if !strings.HasPrefix(from, "/") {
+				return fmt.Errorf("%s: from must start with '/'", patch.JSONPatch)
 			}
 
 			if strings.HasPrefix(from, "/"+document.ServiceProperty) {
